@@ -584,6 +584,17 @@ def c12_monitor(ctx, tr, ix):
         if op["op"] == "_on_before_trading":
             today8 = a["today"]
             prev8 = ix.prev_day8(today8)
+            # a reinvested dividend buys at the price the holding is marked at this morning: the previous close (less what went ex today) — also for a
+            # holding that was sold out in the meantime and only carries the receivable
+            for nop in mine_nested:
+                if nop["op"] == "apply_trade" and nop["args"].get("order") is None and nop["args"]["side"] == "BUY" and nop["args"]["id"] in ix.stock:
+                    pb_ = ix.bar(nop["args"]["id"], prev8)
+                    if pb_ is not None and today8 != prev8:
+                        dps_ = sum(r[4] / r[5] for r in S["div"].get(nop["args"]["id"], []) if r[1] == prev8)
+                        ctx.stats["c12_reinvestment_prices_checked"] += 1
+                        if not near(nop["args"]["price"], pb_[2] - dps_, 1e-9):
+                            ctx.witness("C12.3", {"kind": "reinvestment_price"}, "%s: dividend of %s reinvested on %s at %r; the previous close is %r%s"
+                                        % (op["acct"], nop["args"]["id"], today8, nop["args"]["price"], pb_[2], (" less %r gone ex today" % dps_) if dps_ else ""), rp)
             allowed = -reinvest_fees       # fee of a reinvestment purchase + split rounding + interest compounding
             actions = []
             for h in pre["holdings"]:
